@@ -73,6 +73,9 @@ func VerifHarness_TransferWithRecord() {
 	for _, who := range []common.Address{from, to} {
 		ch := tr.StateChanges().Balance(who)
 		verifAssert(ch != nil, "C13: both parties have a balance journal")
+		if ch == nil {
+			continue
+		}
 		m := ch.Changes()
 		verifAssert(len(m) == 1, "C13: entries only under the frame's call index")
 		verifSameLists(m[idx], verifCollapse(obs, who), "C13: before/after balances in order, repeats collapsed")
@@ -320,6 +323,22 @@ func VerifHarness_TwoTransfers() {
 	}
 	var idx [2]uint64
 	var obs [2][]verifObs
+	// the accounts may also register state variables and journal changes of them, before the
+	// first transfer or between the two: the balance journal is unaffected
+	slot, tid := verifU256("slot"), verifHash("tid")
+	regs := 0
+	register := func(who common.Address, name string) {
+		if verifBool(name + ".registers") {
+			err := tr.SaveStateKey(who, nil, &slot, nil, tid, common.Hash{}, []byte("x"))
+			verifAssert(err == nil, "registration succeeds")
+			if verifBool(name + ".journals") {
+				err = tr.SaveStateChange(who, &slot, nil, tid, []byte{7})
+				verifAssert(err == nil, "journal for a registered key succeeds")
+			}
+			regs++
+		}
+	}
+	register(a, "a.before")
 	for k := 0; k < 2; k++ {
 		from, to := a, b
 		if k == 1 && verifBool("second.reversed") {
@@ -336,12 +355,23 @@ func VerifHarness_TwoTransfers() {
 		if k == 0 && verifBool("first.returns") {
 			tr.ExitCall(0, nil, nil)
 		}
+		if k == 0 {
+			register(a, "a.between")
+			register(b, "b.between")
+		}
 	}
+	register(b, "b.after")
 	verifReach("both-transferred")
+	if regs > 0 {
+		verifReach("with-registrations")
+	}
 	verifAssert(idx[0] != idx[1], "two frames have two call indices")
 	for _, who := range []common.Address{a, b} {
 		ch := tr.StateChanges().Balance(who)
 		verifAssert(ch != nil, "C13: both parties have a balance journal")
+		if ch == nil {
+			continue
+		}
 		m := ch.Changes()
 		verifAssert(len(m) == 2, "C13: entries under each frame's own call index")
 		for k := 0; k < 2; k++ {
